@@ -1,6 +1,7 @@
 package main
 
 import (
+	"regexp"
 	"fmt"
 	"reflect"
 	"sort"
@@ -66,6 +67,19 @@ func fmtCompile(sql string, err error) string {
 	return "ERR"
 }
 
+var errPosRe = regexp.MustCompile(`(\d+):(\d+): `)
+
+func errPos(err error) string {
+	if err == nil {
+		return "-"
+	}
+	m := errPosRe.FindStringSubmatch(err.Error())
+	if m == nil {
+		return "-"
+	}
+	return m[1] + ":" + m[2]
+}
+
 func compileWith(src string, params map[string]string, has bool) (string, error) {
 	if !has {
 		return pql.Compile(src)
@@ -92,13 +106,17 @@ func init() {
 		if has {
 			opts = &pql.CompileOptions{Parameters: params}
 		}
-		a := fmtCompile(opts.Compile(unhex(c.Fields[0])))
-		b := fmtCompile(opts.Compile(unhex(c.Fields[1])))
+		sqlA, errA := opts.Compile(unhex(c.Fields[0]))
+		sqlB, errB := opts.Compile(unhex(c.Fields[1]))
+		a := fmtCompile(sqlA, errA)
+		b := fmtCompile(sqlB, errB)
 		st := "PARAMS-OK"
 		if !reflect.DeepEqual(before, params) {
 			st = "PARAMS-CHANGED"
 		}
-		return a + " ;; " + b + " ;; " + st
+		// the first line:column the error message names (the message is part of the result: it must be the
+		// position in THIS source, whatever was compiled before)
+		return a + " ;; " + b + " ;; " + st + " ;; POS " + errPos(errA) + " " + errPos(errB)
 	}
 	// QUOTE s|i bytes
 	moreOps["QUOTE"] = func(c Case) string {
